@@ -1385,9 +1385,10 @@ class AstEval:
         """Recursive assignment."""
         if isinstance(lhs, (ast.Tuple, ast.List)):
             try:
-                vals = [*(iter(val))]
-            except Exception:
+                val_iter = iter(val)
+            except TypeError:
                 raise TypeError("cannot unpack non-iterable object")  # pylint: disable=raise-missing-from
+            vals = [*val_iter]
             got_star = 0
             for lhs_elt in lhs.elts:
                 if isinstance(lhs_elt, ast.Starred):
